@@ -209,3 +209,46 @@ prop("C12", [_lazy("layout", "rule_lay1"), _lazy("layout", "rule_lay2"), _lazy("
      "single parent/root, the flat layout never touches nested lists and both layouts share the renderer (LAY-3).",
      "class-by-class equality of the two emitted modules; 'root first'; reachability of placed entries for non-tree "
      "graphs (run-time graph shape)")
+
+prop("C01", [_lazy("infer", "rule_opt"), _lazy("infer", "rule_opt2"), _lazy("infer", "rule_opt3"), _lazy("infer", "rule_drop1"),
+             _lazy("emit", "rule_dup1")],
+     "Static decision of the optionality / completeness clauses of C01: on every feasible path of the per-field merge "
+     "loop (path enumeration with the equality axioms of EQ-1/NF-3) the value left in the merged set is optional "
+     "whenever the stored or the incoming side was optional or the field is new in a later set, and the stored type "
+     "is kept unmerged only when the incoming type equals it (OPT-1); names missing from a later set are wrapped "
+     "(OPT-2); an Optional union member keeps a Null candidate which makes the result Optional (OPT-3); a field is "
+     "omitted from emission only by the pydantic/sqlmodel all-null filter, and every key of a sample gets a field "
+     "(DROP-1); models whose name is taken are renamed so no class shadows another (DUP-1).",
+     "that every VALUE inhabits the annotation chosen for it (type detection, union simplification, pseudo-type "
+     "resolution are value-level): e.g. resolve() dropping BooleanString, parsers more lenient than pydantic's")
+
+prop("C02", [_lazy("infer", "rule_opt"), _lazy("infer", "rule_nulldet"), _lazy("infer", "rule_widen1"),
+             _lazy("state", "rule_glob1_generators")],
+     "Static decision of: Optional is introduced in the merge only when justified (converse direction of the OPT "
+     "table, OPT-4); Null is produced only under `value is None` and Unknown only under the emptiness test of the "
+     "matching container (NULLDET-1); candidates are removed from a union only as documented (Unknown when another "
+     "candidate remains and on the final list, Null into Optional, int next to float) and str is introduced only at "
+     "the documented sites (WIDEN-1); type construction keeps no state shared between calls (GLOB-1, so members or "
+     "literals of another inference cannot leak in).",
+     "that a union member / literal / element type at a position was exhibited by a sample routed there (needs the "
+     "samples)")
+
+prop("C07", [_lazy("infer", "rule_opt"), _lazy("infer", "rule_eq1"), _lazy("emit", "rule_lim")],
+     "Static decision of: the merge outcome's optionality is the same for mirrored inputs and the stored side is kept "
+     "only on equality (OPT-5 on the OPT path table); equality of IR types is type-exact and order-insensitive "
+     "(ComplexType compares the sorted MEMBER lists, StringLiteral compares sets) and caches are invalidated on "
+     "every content change (EQ-1); literal limits compare the size of one distinct set, so repeating a sample "
+     "cannot push a position over a limit (LIM-1..3).",
+     "invariance of the inferred TYPES under permutation (union member sets, literal sets, merged models follow the "
+     "values); de-duplication by hash string over dict items in insertion order is an assumption")
+
+prop("C08", [_lazy("infer", "rule_nf"), _lazy("infer", "rule_nf6"), _lazy("infer", "rule_eq1"), _lazy("infer", "rule_widen1"),
+             _lazy("infer", "rule_opt3")],
+     "Static decision of: every DUnion construction in the inference code is followed by a size test on the "
+     "constructed union that replaces a singleton by its member (or is re-simplified by the optimize_type pass), the "
+     "final union is built only from a non-empty candidate list, Optional never wraps Optional (NF-1/2/3); merged "
+     "models are simplified at once and all models once more (NF-6, needed because one pass is not idempotent); "
+     "hash strings / sorted views are invalidated on every content change so de-duplication sees current content "
+     "(EQ-1); Unknown and Null leave the final candidate list and Null becomes Optional (WIDEN-1, OPT-3).",
+     "int/float absorption, str absorption and flatness after replace on concrete types; idempotence on arbitrary "
+     "types (a single optimize_type pass is known not to be idempotent for Optional[Union[..]] members)")
